@@ -3,6 +3,8 @@
 # theorem that states the translation equals the hand-written model (lean/Acra/Props/<prop>/SrcTieCls.lean).
 #   file     path below $ACRA_REPO               cls      class name in that file
 #   lean     module under Acra.Gen.Src.Cls        fields   {attribute: "int" | "bytes" | "bool"} type overrides
+#   uses     [(lean module under Acra.Gen.Src, function)] module-level functions of the same file, translated by
+#            translate.py (SRC tables), that the methods call
 #   methods  [dict(func=method name, name=lean def name (default func), params={parameter: "int" | "bytes" | "bool" |
 #             "self" (an object of the same class)}, prop=…, theorem=…, also=[(prop, theorem), …] further properties
 #             with a theorem about the same translated method)]; annotated int / bytes parameters need no entry
@@ -25,6 +27,9 @@ METHODS = [
   dict(file="AcraNetwork/SimpleEthernet.py", cls="UDP", lean="UDP", methods=[
       dict(func="pack", prop="C02", theorem="src_UDP_pack"),
       dict(func="unpack", prop="C02", theorem="src_UDP_unpack"),
+  ]),
+  dict(file="AcraNetwork/SimpleEthernet.py", cls="ICMP", lean="ICMP", uses=[("SimpleEthernet", "ip_calc_checksum")], methods=[
+      dict(func="pack", prop="C02", theorem="src_ICMP_pack"),
   ]),
   dict(file="AcraNetwork/Pcap.py", cls="PcapRecord", lean="PcapRecord", methods=[
       dict(func="pack", prop="C05", theorem="src_PcapRecord_pack"),
